@@ -74,6 +74,24 @@ def gen_cases(run, thorough):
                 calls = pre + [a] + finish_suffix()
                 cases.append("P=%s D=%s:%d:%d C=%s" % (params, rng.choice(["text", "rand"]), dlen, rng.randrange(1, 1 << 30), ",".join(calls)))
                 meta.append(("single", label))
+    # 2b. corpus of minimized earlier failures + the "stale output cursor" family: a metadata block whose
+    #     payload leaves the tiny-buffer cursor at every offset, then a block, then a flush
+    cp = os.path.join(vlib.ROOT, "corpus", "stream.txt")
+    if os.path.exists(cp):
+        for ln in open(cp):
+            ln = ln.strip()
+            if ln:
+                cases.append(ln)
+                meta.append(("corpus", "corpus"))
+    for label, params in CONFIGS:
+        if label in HEAVY and not thorough:
+            continue
+        for k in (1, 2, 3, 13, 14, 15, 16, 17, 31, 32, 33):
+            for drain in ([3, 16], [3, 16, 16], [1, 1, 1, 16, 16], [6, 13], [100]):
+                calls = ["p1000/4096", "m%d/0" % k] + ["mR/%d" % d for d in drain] + ["p700/%d" % rng.choice([4096, 100]), "f0/4096", "f0/4096"]
+                calls += finish_suffix(2)
+                cases.append("P=%s D=%s:3000:%d C=%s" % (params, rng.choice(["text", "rand"]), rng.randrange(1, 1 << 30), ",".join(calls)))
+                meta.append(("stale-cursor", label))
     # 3. random long histories, mostly protocol-following with injected violations
     nrand = 1500 if thorough else 350
     for _ in range(nrand):
